@@ -1,7 +1,386 @@
-//! C02 operations (op names start with `c02.`)
-#[allow(unused_imports)]
+//! C02 — unsigned division and remainder (op names start with `c02.`)
+//!
+//! `c02.recip d`                      Reciprocal::new observed through its Debug output
+//! `c02.div2by1 u1 u0 d`              div2by1 observed through a two-limb `div_rem_limb_with_reciprocal`
+//! `c02.u.<name> L n d`               fixed width, same-width divisor (or limb divisor)
+//! `c02.u.<name>_mixed L R n d`       fixed width, mixed widths
+//! `c02.u.rem_wide_vartime L lo hi d`, `c02.u.rem2k_vartime L n k`
+//! `c02.b.<name> NL DL n d`           boxed, `c02.b.div_rem_limb NL n d`
+//!
+//! Ops ending in `_forms` / printing a trailing `ok` run every forwarding form of the API
+//! (operators by value / reference / assigning, `Wrapping`, checked, trait methods) and print `ok`
+//! only if all of them return the primary result.
 use crate::util::*;
+use crypto_bigint::{
+    BoxedUint, CheckedDiv, DivRemLimb, DivVartime, Limb, NonZero, Reciprocal, RemLimb, RemMixed, Uint, Wrapping,
+};
 
-pub fn dispatch(_op: &str, _a: &[&str]) -> Option<String> {
-    None
+const NONE: &str = "none";
+
+fn forms_tok<T: PartialEq>(base: &T, forms: &[T]) -> String {
+    let bad: Vec<String> = forms.iter().enumerate().filter(|(_, f)| *f != base).map(|(i, _)| i.to_string()).collect();
+    if bad.is_empty() { "ok".into() } else { format!("forms-differ:{}", bad.join(",")) }
+}
+
+/// parse `Reciprocal { divisor_normalized: X, shift: Y, reciprocal: Z }`
+fn recip_fields(rc: &Reciprocal) -> Option<(u64, u32, u64)> {
+    let s = format!("{rc:?}");
+    let num = |key: &str| -> Option<u64> {
+        let p = s.find(key)? + key.len();
+        let rest = &s[p..];
+        let end = rest.find(|c: char| !c.is_ascii_digit()).unwrap_or(rest.len());
+        rest[..end].parse::<u64>().ok()
+    };
+    Some((num("divisor_normalized: ")?, num("shift: ")? as u32, num(" reciprocal: ")?))
+}
+
+fn fixed<const N: usize>(op: &str, a: &[&str]) -> Option<String> {
+    Some(match (op, a) {
+        ("c02.u.div_rem_limb", [n, d]) => {
+            let (x, d) = (arg!(uint::<N>(n)), arg!(limb(d)));
+            let nz: NonZero<Limb> = match Option::from(NonZero::new(d)) { Some(v) => v, None => return Some(NONE.into()) };
+            let rc = Reciprocal::new(nz);
+            let (q, r) = x.div_rem_limb(nz);
+            let rr = x.rem_limb(nz);
+            let base = (q, r);
+            let mut qf: Vec<(Uint<N>, Limb)> = vec![
+                x.div_rem_limb_with_reciprocal(&rc),
+                DivRemLimb::div_rem_limb(&x, nz),
+                DivRemLimb::div_rem_limb_with_reciprocal(&x, &rc),
+                (x / nz, x % nz),
+                (&x / &nz, &x % &nz),
+                (x / &nz, x % &nz),
+                (&x / nz, &x % nz),
+                ((Wrapping(x) / nz).0, (Wrapping(x) % nz).0),
+                ((&Wrapping(x) / nz).0, (&Wrapping(x) % nz).0),
+                ((&Wrapping(x) / &nz).0, (&Wrapping(x) % &nz).0),
+                ((Wrapping(x) / &nz).0, (Wrapping(x) % &nz).0),
+                (q, x.rem_limb_with_reciprocal(&rc)),
+                (q, RemLimb::rem_limb(&x, nz)),
+                (q, RemLimb::rem_limb_with_reciprocal(&x, &rc)),
+            ];
+            {
+                let (mut t, mut u) = (x, x);
+                t /= nz;
+                u /= &nz;
+                qf.push((t, r));
+                qf.push((u, r));
+                let (mut t, mut u) = (x, x);
+                t %= nz;
+                u %= &nz;
+                let rl = Uint::<N>::from(r);
+                let fix = |v: Uint<N>| if v == rl { r } else { Limb(!r.0) };
+                qf.push((q, fix(t)));
+                qf.push((q, fix(u)));
+                let (mut t, mut u) = (Wrapping(x), Wrapping(x));
+                t /= nz;
+                u /= &nz;
+                qf.push((t.0, r));
+                qf.push((u.0, r));
+                let (mut t, mut u) = (Wrapping(x), Wrapping(x));
+                t %= nz;
+                u %= &nz;
+                qf.push((q, fix(t.0)));
+                qf.push((q, fix(u.0)));
+            }
+            format!("{} {} {} {}", uhex(&q), lhex(r), lhex(rr), forms_tok(&base, &qf))
+        }
+        ("c02.u.rem_wide_vartime", [lo, hi, d]) => {
+            let (lo, hi, d) = (arg!(uint::<N>(lo)), arg!(uint::<N>(hi)), arg!(uint::<N>(d)));
+            let nz: NonZero<Uint<N>> = match Option::from(NonZero::new(d)) { Some(v) => v, None => return Some(NONE.into()) };
+            uhex(&Uint::<N>::rem_wide_vartime((lo, hi), &nz))
+        }
+        ("c02.u.rem2k_vartime", [n, k]) => {
+            let (x, k) = (arg!(uint::<N>(n)), arg!(dec32(k)));
+            uhex(&x.rem2k_vartime(k))
+        }
+        ("c02.u.checked_div", [n, d]) => {
+            let (x, d) = (arg!(uint::<N>(n)), arg!(uint::<N>(d)));
+            let r: Option<Uint<N>> = x.checked_div(&d).into();
+            let t: Option<Uint<N>> = CheckedDiv::checked_div(&x, &d).into();
+            if r != t { "forms-differ".into() } else { r.map(|v| uhex(&v)).unwrap_or(NONE.into()) }
+        }
+        ("c02.u.checked_rem", [n, d]) => {
+            let (x, d) = (arg!(uint::<N>(n)), arg!(uint::<N>(d)));
+            let r: Option<Uint<N>> = x.checked_rem(&d).into();
+            r.map(|v| uhex(&v)).unwrap_or(NONE.into())
+        }
+        ("c02.u.op_div_uint", [n, d]) => {
+            let (x, d) = (arg!(uint::<N>(n)), arg!(uint::<N>(d)));
+            let q = x / d;
+            let q2 = &x / d;
+            format!("{} {}", uhex(&q), forms_tok(&q, &[q2]))
+        }
+        ("c02.u.op_rem_uint", [n, d]) => {
+            let (x, d) = (arg!(uint::<N>(n)), arg!(uint::<N>(d)));
+            let q = x % d;
+            let q2 = &x % d;
+            format!("{} {}", uhex(&q), forms_tok(&q, &[q2]))
+        }
+        ("c02.u.wrapping_rem_vartime", [n, d]) => {
+            let (x, d) = (arg!(uint::<N>(n)), arg!(uint::<N>(d)));
+            uhex(&x.wrapping_rem_vartime(&d))
+        }
+        (_, [n, d]) => {
+            let (x, d) = (arg!(uint::<N>(n)), arg!(uint::<N>(d)));
+            let nz: NonZero<Uint<N>> = match Option::from(NonZero::new(d)) { Some(v) => v, None => return Some(NONE.into()) };
+            match op {
+                "c02.u.div_rem" => {
+                    let (q, r) = x.div_rem(&nz);
+                    format!("{} {}", uhex(&q), uhex(&r))
+                }
+                "c02.u.div_forms" => {
+                    let q = x.wrapping_div(&nz);
+                    let mut f = vec![
+                        x.div_rem(&nz).0,
+                        x / nz,
+                        &x / &nz,
+                        x / &nz,
+                        &x / nz,
+                        (Wrapping(x) / nz).0,
+                        (&Wrapping(x) / nz).0,
+                        (&Wrapping(x) / &nz).0,
+                        (Wrapping(x) / &nz).0,
+                        Option::<Uint<N>>::from(x.checked_div(&d)).unwrap_or(Uint::MAX),
+                        Option::<Uint<N>>::from(CheckedDiv::checked_div(&x, &d)).unwrap_or(Uint::MAX),
+                    ];
+                    let (mut t, mut u) = (x, x);
+                    t /= nz;
+                    u /= &nz;
+                    f.push(t);
+                    f.push(u);
+                    let (mut t, mut u) = (Wrapping(x), Wrapping(x));
+                    t /= nz;
+                    u /= &nz;
+                    f.push(t.0);
+                    f.push(u.0);
+                    format!("{} {}", uhex(&q), forms_tok(&q, &f))
+                }
+                "c02.u.rem_forms" => {
+                    let r = x.rem(&nz);
+                    let mut f = vec![
+                        x.div_rem(&nz).1,
+                        x % nz,
+                        &x % &nz,
+                        x % &nz,
+                        &x % nz,
+                        (Wrapping(x) % nz).0,
+                        (&Wrapping(x) % nz).0,
+                        (&Wrapping(x) % &nz).0,
+                        (Wrapping(x) % &nz).0,
+                        Option::<Uint<N>>::from(x.checked_rem(&d)).unwrap_or(Uint::MAX),
+                    ];
+                    let (mut t, mut u) = (x, x);
+                    t %= nz;
+                    u %= &nz;
+                    f.push(t);
+                    f.push(u);
+                    let (mut t, mut u) = (Wrapping(x), Wrapping(x));
+                    t %= nz;
+                    u %= &nz;
+                    f.push(t.0);
+                    f.push(u.0);
+                    format!("{} {}", uhex(&r), forms_tok(&r, &f))
+                }
+                "c02.u.div_rem_vartime" => {
+                    let (q, r) = x.div_rem_vartime(&nz);
+                    let f = vec![
+                        (x.wrapping_div_vartime(&nz), x.rem_vartime(&nz)),
+                        (DivVartime::div_vartime(&x, &nz), x.wrapping_rem_vartime(&d)),
+                    ];
+                    format!("{} {} {}", uhex(&q), uhex(&r), forms_tok(&(q, r), &f))
+                }
+                _ => return None,
+            }
+        }
+        _ => return None,
+    })
+}
+
+fn mixed<const L: usize, const R: usize>(a: &[&str]) -> Option<String> {
+    let (x, d) = (arg!(uint::<L>(a[0])), arg!(uint::<R>(a[1])));
+    let nz: NonZero<Uint<R>> = match Option::from(NonZero::new(d)) { Some(v) => v, None => return Some(NONE.into()) };
+    let (q, r) = x.div_rem_vartime(&nz);
+    if x.wrapping_div_vartime(&nz) != q {
+        return Some("forms-differ".into());
+    }
+    Some(format!("{} {}", uhex(&q), uhex(&r)))
+}
+
+fn rem_mixed<const L: usize, const R: usize>(a: &[&str]) -> Option<String>
+where
+    Uint<L>: RemMixed<Uint<R>>,
+{
+    let (x, d) = (arg!(uint::<L>(a[0])), arg!(uint::<R>(a[1])));
+    let nz: NonZero<Uint<R>> = match Option::from(NonZero::new(d)) { Some(v) => v, None => return Some(NONE.into()) };
+    Some(uhex(&x.rem_mixed(&nz)))
+}
+
+macro_rules! with_w {
+    ($n:expr, $f:ident, $($args:expr),*) => {
+        match $n {
+            1 => $f::<1>($($args),*), 2 => $f::<2>($($args),*), 3 => $f::<3>($($args),*),
+            4 => $f::<4>($($args),*), 5 => $f::<5>($($args),*), 6 => $f::<6>($($args),*),
+            7 => $f::<7>($($args),*), 8 => $f::<8>($($args),*), 12 => $f::<12>($($args),*),
+            16 => $f::<16>($($args),*), 32 => $f::<32>($($args),*), 64 => $f::<64>($($args),*),
+            _ => Some("unsupported-width".to_string()),
+        }
+    };
+}
+
+macro_rules! pairs {
+    ($l:expr, $r:expr, $f:ident, $a:expr, [$(($x:literal, $y:literal)),* $(,)?]) => {
+        match ($l, $r) {
+            $( ($x, $y) => $f::<$x, $y>($a), )*
+            _ => Some("unsupported-width".to_string()),
+        }
+    };
+}
+
+fn boxed_op(op: &str, a: &[&str]) -> Option<String> {
+    let (nl, dl) = (arg!(dec(a[0])), arg!(dec(a[1])));
+    let (x, d) = (arg!(boxed(a[2], nl)), arg!(boxed(a[3], dl)));
+    let name = op.strip_prefix("c02.b.")?;
+    if name == "checked_div" || name == "checked_div_mixed" {
+        let r: Option<BoxedUint> = x.checked_div(&d).into();
+        let t: Option<BoxedUint> = CheckedDiv::checked_div(&x, &d).into();
+        return Some(if r != t { "forms-differ".into() } else { r.map(|v| bhexlen(&v)).unwrap_or(NONE.into()) });
+    }
+    let nz: NonZero<BoxedUint> = match Option::from(NonZero::new(d.clone())) { Some(v) => v, None => return Some(NONE.into()) };
+    Some(match name {
+        "div_rem" | "div_rem_mixed" => {
+            let (q, r) = x.div_rem(&nz);
+            format!("{} {}", bhexlen(&q), bhexlen(&r))
+        }
+        "div_forms" | "div_forms_mixed" => {
+            let q = x.wrapping_div(&nz);
+            let key = |v: &BoxedUint| bhexlen(v);
+            let mut f = vec![
+                key(&x.div_rem(&nz).0),
+                key(&(x.clone() / nz.clone())),
+                key(&(&x / &nz)),
+                key(&(x.clone() / &nz)),
+                key(&(&x / nz.clone())),
+                key(&(Wrapping(x.clone()) / nz.clone()).0),
+                key(&(&Wrapping(x.clone()) / nz.clone()).0),
+                key(&(&Wrapping(x.clone()) / &nz).0),
+                key(&(Wrapping(x.clone()) / &nz).0),
+                Option::<BoxedUint>::from(x.checked_div(&d)).map(|v| key(&v)).unwrap_or(NONE.into()),
+                Option::<BoxedUint>::from(CheckedDiv::checked_div(&x, &d)).map(|v| key(&v)).unwrap_or(NONE.into()),
+            ];
+            let (mut t, mut u) = (x.clone(), x.clone());
+            t /= nz.clone();
+            u /= &nz;
+            f.push(key(&t));
+            f.push(key(&u));
+            let (mut t, mut u) = (Wrapping(x.clone()), Wrapping(x.clone()));
+            t /= nz.clone();
+            u /= &nz;
+            f.push(key(&t.0));
+            f.push(key(&u.0));
+            format!("{} {}", key(&q), forms_tok(&key(&q), &f))
+        }
+        "rem_forms" | "rem_forms_mixed" => {
+            let r = x.rem(&nz);
+            let key = |v: &BoxedUint| bhexlen(v);
+            let mut f = vec![
+                key(&x.div_rem(&nz).1),
+                key(&(x.clone() % nz.clone())),
+                key(&(&x % &nz)),
+                key(&(x.clone() % &nz)),
+                key(&(&x % nz.clone())),
+            ];
+            let (mut t, mut u) = (x.clone(), x.clone());
+            t %= nz.clone();
+            u %= &nz;
+            f.push(key(&t));
+            f.push(key(&u));
+            format!("{} {}", key(&r), forms_tok(&key(&r), &f))
+        }
+        "div_rem_vartime" => {
+            let (q, r) = x.div_rem_vartime(&nz);
+            let key = |q: &BoxedUint, r: &BoxedUint| format!("{} {}", bhexlen(q), bhexlen(r));
+            let f = vec![
+                key(&x.wrapping_div_vartime(&nz), &x.rem_mixed(&nz)),
+                key(&DivVartime::div_vartime(&x, &nz), &r),
+            ];
+            format!("{} {}", key(&q, &r), forms_tok(&key(&q, &r), &f))
+        }
+        "rem_vartime" => bhexlen(&x.rem_vartime(&nz)),
+        _ => return None,
+    })
+}
+
+fn boxed_limb(a: &[&str]) -> Option<String> {
+    let nl = arg!(dec(a[0]));
+    let (x, d) = (arg!(boxed(a[1], nl)), arg!(limb(a[2])));
+    let nz: NonZero<Limb> = match Option::from(NonZero::new(d)) { Some(v) => v, None => return Some(NONE.into()) };
+    let rc = Reciprocal::new(nz);
+    let (q, r) = x.div_rem_limb(nz);
+    let rr = x.rem_limb(nz);
+    let key = |q: &BoxedUint, r: Limb| format!("{} {}", bhexlen(q), lhex(r));
+    let f = vec![
+        { let (q2, r2) = x.div_rem_limb_with_reciprocal(&rc); key(&q2, r2) },
+        { let (q2, r2) = DivRemLimb::div_rem_limb(&x, nz); key(&q2, r2) },
+        { let (q2, r2) = DivRemLimb::div_rem_limb_with_reciprocal(&x, &rc); key(&q2, r2) },
+        key(&q, if x.rem_limb_with_reciprocal(&rc) == rr { r } else { Limb(!r.0) }),
+        key(&q, if RemLimb::rem_limb(&x, nz) == rr { r } else { Limb(!r.0) }),
+        key(&q, if RemLimb::rem_limb_with_reciprocal(&x, &rc) == rr { r } else { Limb(!r.0) }),
+    ];
+    Some(format!("{} {} {}", key(&q, r), lhex(rr), forms_tok(&key(&q, r), &f)))
+}
+
+pub fn dispatch(op: &str, a: &[&str]) -> Option<String> {
+    match (op, a) {
+        ("c02.recip", [d]) => {
+            let d = arg!(limb(d));
+            let nz: NonZero<Limb> = match Option::from(NonZero::new(d)) { Some(v) => v, None => return Some(NONE.into()) };
+            let rc = Reciprocal::new(nz);
+            let (dn, sh, rv) = arg!(recip_fields(&rc));
+            if sh != rc.shift() {
+                return Some("forms-differ".into());
+            }
+            Some(format!("{dn:x} {sh} {rv:x}"))
+        }
+        ("c02.div2by1", [u1, u0, d]) => {
+            let (u1, u0, d) = (arg!(word(u1)), arg!(word(u0)), arg!(limb(d)));
+            let nz: NonZero<Limb> = match Option::from(NonZero::new(d)) { Some(v) => v, None => return Some(NONE.into()) };
+            let rc = Reciprocal::new(nz);
+            if rc.shift() != 0 || u1 >= d.0 {
+                return Some(BAD.into());
+            }
+            let (q, r) = Uint::<2>::from_words([u0, u1]).div_rem_limb_with_reciprocal(&rc);
+            Some(format!("{} {}", uhex(&q), lhex(r)))
+        }
+        ("c02.u.div_rem_vartime_mixed", [l, r, n, d]) => {
+            let (l, r) = (arg!(dec(l)), arg!(dec(r)));
+            let rest = [*n, *d];
+            pairs!(l, r, mixed, &rest, [
+                (1, 1), (1, 2), (1, 3), (1, 4), (1, 8),
+                (2, 1), (2, 2), (2, 3), (2, 4), (2, 6),
+                (3, 1), (3, 2), (3, 3), (3, 4), (3, 8),
+                (4, 1), (4, 2), (4, 3), (4, 4), (4, 6), (4, 8), (4, 16),
+                (6, 1), (6, 2), (6, 3), (6, 4), (6, 6), (6, 8),
+                (8, 1), (8, 2), (8, 3), (8, 4), (8, 6), (8, 8), (8, 16),
+                (16, 1), (16, 2), (16, 4), (16, 8), (16, 16), (16, 32),
+                (32, 1), (32, 4), (32, 16), (32, 32), (32, 64),
+                (64, 1), (64, 8), (64, 32), (64, 64),
+            ])
+        }
+        ("c02.u.rem_mixed", [l, r, n, d]) => {
+            let (l, r) = (arg!(dec(l)), arg!(dec(r)));
+            let rest = [*n, *d];
+            pairs!(l, r, rem_mixed, &rest, [
+                (3, 1), (3, 2), (4, 1), (4, 3), (8, 3), (8, 5), (16, 7), (16, 9), (16, 15),
+            ])
+        }
+        ("c02.b.div_rem_limb", [_, _, _]) => boxed_limb(a),
+        _ if op.starts_with("c02.b.") && a.len() == 4 => boxed_op(op, a),
+        _ if op.starts_with("c02.u.") && !a.is_empty() => {
+            let n = arg!(dec(a[0]));
+            let rest = &a[1..];
+            with_w!(n, fixed, op, rest)
+        }
+        _ => None,
+    }
 }
